@@ -120,12 +120,25 @@ pub fn slot_strategy() -> impl Strategy<Value = SlotSpec> {
         any::<u64>(),
         prop::collection::vec(prop_oneof![7 => Just(0u8), 1 => Just(1u8), 1 => Just(2u8), 1 => Just(3u8)], 6),
     )
-        .prop_map(|(vclass, vraw, pclass, praw, bclass)| SlotSpec {
-            vclass,
-            vraw,
-            pclass,
-            praw,
-            bclass,
+        .prop_map(|(vclass, vraw, pclass, praw, bclass)| {
+            // one slot in ~40 is the all-zero opening: value 0 with every blinding component 0 (identity commitment)
+            if vraw % 40 == 0 {
+                SlotSpec {
+                    vclass: 0,
+                    vraw,
+                    pclass: pclass % 2,
+                    praw,
+                    bclass: vec![1; 6],
+                }
+            } else {
+                SlotSpec {
+                    vclass,
+                    vraw,
+                    pclass,
+                    praw,
+                    bclass,
+                }
+            }
         })
 }
 
